@@ -1,3 +1,4 @@
 import Kn.Pre
 import Kn.Lead
 import Kn.Loop
+import Kn.Arr
